@@ -135,19 +135,22 @@ PROPS = {
         "assumptions": ["headers clause read as applying to a configured document (a mux without one answers `{}`)", "document equality modulo omitempty (empty == absent)"],
     },
     "C03": {
-        "lean_modules": ["MocProps.C03"], "theorem_files": ["MocProps/C03.lean"],
+        "lean_modules": ["MocProps.C03", "MocProps.C03Find"], "theorem_files": ["MocProps/C03.lean", "MocProps/C03Find.lean"],
         "gen_groups": ["Cache", "Matcher"], "harness_prop": "cache", "driver_prop": "cache", "stateful": True,
         "monitors": ["query"],
         "n_quick": 60000, "n_thorough": 600000, "thorough_seeds": 3,
         "rule": CACHE_RULE,
-        "level_text": "Partial so far: theorems cover the ordered-scan path (scanLoop_eq: exactly the first `limit` NIP-01 matches of the tree walk, for every filter, store and "
-                      "starting count) and the index path's candidate test (idxCandidate_eq: intersection of the index posting sets = the id/author/kind/#x conditions). "
-                      "The top-k loop, the merge over filters and index maintenance are tied by the step-by-step differential run (every query answer after every insertion is "
-                      "compared with the model, 0 differences required) and judged by the property-level monitor `findAllowed` (valid top-limit per filter, merged, no duplicates, "
-                      "non-increasing created_at, every element retained). Path independence is exercised by filters that take either path over the same content.",
-        "level_note": "Trusted: Lean kernel + standard axioms; go2lean; harness/driver; igrmk/treemap ordering and Go map iteration are modelled (derived views of the event list), "
-                      "not verified; filters have distinct single-byte tag names and events no empty tag (what Valid guarantees).",
-        "assumptions": ["equal created_at at a limit boundary: any valid top-n accepted by the monitor (the model itself is exact: ties broken by id)"],
+        "level_text": "Full on the model: for every store content with injective ids and non-empty tags (in particular every state reachable by insertions: storeOK_reachable), every list of "
+                      "well-formed filters and EVERY iteration order of Go's maps, Find returns without panic the list sorted newest first (larger id first among equal timestamps, hence "
+                      "non-increasing created_at and duplicate-free: sorted_desc) whose members are exactly, for each filter, the `limit` first retained events matching it per NIP-01 "
+                      "(find_eq_spec, find_eq_spec_reachable, find_perm_irrelevant). Ingredients proved: the tree order is a strict total order; insertOrd keeps sortedness and adds exactly the new "
+                      "event; sorted lists with equal members are equal (sorted_ext); the ordered-scan path returns the first `limit` matches of the tree walk (scanLoop_eq, scan_eq_topOf); the "
+                      "index path's candidate test is the id/author/kind/#x conjunction (idxCandidate_eq) and its top-k loop ends with the first `limit` of what passes since/until whatever the "
+                      "arrival order (topkLoop_eq, idx_eq_topOf); the merge over filters is the union (find_fold). Modelled, runtime-validated: the tree and the secondary index are derived views "
+                      "of the event list in the model; their maintenance code is tied by the step-by-step differential run (every answer after every insertion, 0 differences).",
+        "level_note": "Trusted: Lean kernel + standard axioms; go2lean; harness/driver; igrmk/treemap ordering and Go map iteration are modelled (derived views of the event list, an arbitrary "
+                      "permutation for map order), not verified; filters have distinct single-byte tag names and events no empty tag (what Valid guarantees).",
+        "assumptions": ["equal created_at at a limit boundary: any valid top-n accepted by the monitor (the model itself is exact: ties broken by id)", "ids are injective over the stored events"],
     },
     "C04": {
         "lean_modules": ["MocProps.C04"], "theorem_files": ["MocProps/C04.lean"],
